@@ -53,6 +53,9 @@ FIRE = [
     ("add-ignores-right-fixed-width", "C11", [(CIRC, "n_qubits = max(self.width, other.width) if self._qubits_simulated or other._qubits_simulated else None", "n_qubits = max(self.width, other.width) if self._qubits_simulated else None")], "K9.width-propagation"),
     ("gate-accepts-bool-free-float-index", "C11", [(GATE, "if (type(ind) != int) or (ind < 0):", "if (not isinstance(ind, (int, float))) or (ind < 0):")], "K6.gate-validation"),
     # ---- C09
+    ("redundant-gates-ignore-second-qubit", "C09", [(CIRC, "        for qubit_i in qubits:\n            if not gate_qubits[qubit_i] or gate_qubits[qubit_i][-1][1].inverse() != gate:", "        for qubit_i in qubits[:1]:\n            if not gate_qubits[qubit_i] or gate_qubits[qubit_i][-1][1].inverse() != gate:")], "K9.pass-semantics"),
+    ("merge-ignores-axis", "C09", [(CIRC, "                if (gate.name, gate.target, gate.control) == (g_prev.name, g_prev.target, g_prev.control):", "                if (gate.target, gate.control) == (g_prev.target, g_prev.control) and g_prev.name in rot_gates:")], "K9.pass-semantics"),
+    ("small-rotations-threshold-on-raw-angle", "C09", [(CIRC, "not (g.name in rot_gates and abs(g.parameter) % periods[g.name] < param_threshold)]", "not (g.name in rot_gates and (abs(g.parameter) % periods[g.name] < param_threshold or abs(g.parameter) > 6.28))]")], "K9.pass-semantics"),
     ("eq-ignores-names-when-one-is-cnot", "C09", [(GATE, 'if ds["name"] in ["CNOT", "CX"] and do["name"] in ["CNOT", "CX"] else ["parameter"]', 'if ds["name"] in ["CNOT", "CX"] or do["name"] in ["CNOT", "CX"] else ["parameter"]')], "K9.gate-equality"),
     ("mul-returns-self-for-one", "C09", [(CIRC, "        return Circuit(self._gates * n_repeat, n_qubits=self._qubits_simulated)", "        if n_repeat == 1:\n            return self\n        return Circuit(self._gates * n_repeat, n_qubits=self._qubits_simulated)")], "K1.fresh-result"),
     ("inverse-of-T-wrong-angle", "C09", [(GATE, 'new_parameter = -pi / 2 if self.name == "S" else -pi / 4', 'new_parameter = -pi / 2 if self.name == "S" else -pi / 8')], "K9.inverse-table"),
@@ -215,6 +218,8 @@ SILENT = [
     ("reference-circuit-positional", "C05", [(SV, "    vector = get_vector(n_spinorbitals, n_electrons, mapping, up_then_down=up_then_down, spin=spin)", "    vector = get_vector(n_spinorbitals, n_electrons, mapping, up_then_down, spin)")]),
     ("scbk-edit-spelling", "C05", [(SCBK, '        if (spin_orbital - 1, "Z") in term:\n            new_coefficient = coefficient*orbital_parity\n            new_term = tuple(i for i in term if i != (spin_orbital - 1, "Z"))', '        target = (spin_orbital - 1, "Z")\n        if target in term:\n            new_coefficient = orbital_parity*coefficient\n            new_term = tuple(i for i in term if i != target)')]),
     ("complex-expectation-spelling", "C02", [(BACK, "            return exp_real if (exp_imag == 0.) else exp_real + 1.0j * exp_imag", "            return exp_real + 1j * exp_imag if exp_imag != 0. else exp_real")]),
+    ("merge-condition-spelling", "C09", [(CIRC, "                if (gate.name, gate.target, gate.control) == (g_prev.name, g_prev.target, g_prev.control):", "                if gate.name == g_prev.name and gate.target == g_prev.target and gate.control == g_prev.control:")]),
+    ("redundant-gates-all-spelling", "C09", [(CIRC, "        for qubit_i in qubits:\n            if not gate_qubits[qubit_i] or gate_qubits[qubit_i][-1][1].inverse() != gate:\n                remove_gate = False\n                break", "        remove_gate = all(gate_qubits[q] and gate_qubits[q][-1][1].inverse() == gate for q in qubits)")]),
     ("angle-law-spelling", "C06", [(AU, "    angle = 2.*coef if coef >= 0. else 4*np.pi+2*coef", "    angle = 2.*coef + (0. if coef >= 0. else 4*np.pi)")]),
     ("cirq-branches-reordered", "C01", [(TCIRQ, '        elif gate_name in {"SWAP"}:\n            target_circuit.append(GATE_CIRQ[gate_name](qubit_list[gate.target[0]], qubit_list[gate.target[1]]))\n        elif gate_name in {"CSWAP"}:\n            next_gate = GATE_CIRQ[gate_name].controlled(num_controls)\n            target_circuit.append(next_gate(*control_list, qubit_list[gate.target[0]], qubit_list[gate.target[1]]))\n',
                                          '        elif gate_name in {"CSWAP"}:\n            next_gate = GATE_CIRQ[gate_name].controlled(num_controls)\n            target_circuit.append(next_gate(*control_list, qubit_list[gate.target[0]], qubit_list[gate.target[1]]))\n        elif gate_name in {"SWAP"}:\n            target_circuit.append(GATE_CIRQ[gate_name](qubit_list[gate.target[0]], qubit_list[gate.target[1]]))\n')]),
